@@ -3,6 +3,7 @@ package props
 import (
 	"context"
 	"fmt"
+	"os"
 	"sort"
 	"testing"
 	"time"
@@ -78,6 +79,8 @@ func genC15(r *rt.Rand, tier string, idx int) *world.Scenario {
 				// ... or a read whose request the leader has answered and whose answer the standby applies only
 				// after it has taken over (the reader's goroutine checked "am I leader" before it asked)
 				cl.Ops = append(cl.Ops, world.Op{K: "followersync", Node: 1, W: 0, Ms: 1})
+				sc.Extra["tso_yield"] = 1
+				sc.Extra["stallrand:tso.commit"] = int64(4 + r.Intn(12))
 			}
 		}
 	}
@@ -95,6 +98,19 @@ func genC15(r *rt.Rand, tier string, idx int) *world.Scenario {
 		at = len(cl.Ops) // after the burst
 	}
 	ops := append([]world.Op{}, cl.Ops[:at]...)
+	if sc.Extra["standby"] != 0 && idx%180 != 13 && r.Chance(0.3) {
+		// the standby's last follower read before the fail-over is still in flight when it takes over: the
+		// old leader has answered (and may have written a little more since), the answer is applied late
+		cut := len(ops) - r.Intn(3)
+		if cut < 0 {
+			cut = 0
+		}
+		tail := append([]world.Op{}, ops[cut:]...)
+		ops = append(ops[:cut:cut], world.Op{K: "waitcommitted"}, world.Op{K: "followersync", Node: 1, W: 0, Ms: 1})
+		ops = append(ops, tail...)
+		sc.Extra["tso_yield"] = 1
+		sc.Extra["stallrand:tso.commit"] = int64(4 + r.Intn(12))
+	}
 	ops = append(ops, world.Op{K: "crash", Node: 0})
 	sc.Clients = []world.Client{{Ops: ops}}
 	if idx%3 == 1 {
@@ -176,7 +192,27 @@ func c15Custom(t *testing.T, sc *world.Scenario, out *Outcome) {
 		b = w.AddNode()
 		leB = start(b)
 	}
-	if !until(leB.IsLeader, 40*time.Second) {
+	lateSync := false
+	lateDone := true
+	if len(w.HeldSyncs) > 0 && sc.Seed%2 == 1 {
+		// the held answer is applied by the reader's goroutine while the node takes over: its
+		// SetCurrentRevision races with the one of the leader callback
+		lateDone = false
+		s.Go("late-sync", b.ID, func() {
+			// (IsLeader turns true only after the callback has set the revision: wake at the callback's start)
+			s.YieldUntil("latesync.wait", func() bool { return b.M.Counter("leader.election.success") > 0 || leB.IsLeader() })
+			for _, h := range w.HeldSyncs {
+				if h.Node == b.ID {
+					b.B.SetCurrentRevision(h.Rev)
+					out.probe("late-follower-sync-applied-during-takeover")
+					lateSync = true
+				}
+			}
+			w.HeldSyncs = nil
+			lateDone = true
+		})
+	}
+	if !until(func() bool { return leB.IsLeader() && lateDone }, 40*time.Second) {
 		out.violate(P, "no-new-leader", "no-new-leader", "no node became leader within 40 simulated seconds after the old leader stopped")
 		return
 	}
@@ -192,7 +228,6 @@ func c15Custom(t *testing.T, sc *world.Scenario, out *Outcome) {
 	// probes on the new leader, against a healthy engine
 	w.KV.StopFaults()
 	var firstNew uint64
-	lateSync := false
 	okRun := w.RunTask("c15-probe", -1, 20000, func() {
 		// an unguarded delete as the new leader's very first write: whatever revision the node starts
 		// from, a key's history never goes backwards (the write is refused or lands above the stored version)
@@ -242,6 +277,9 @@ func c15Custom(t *testing.T, sc *world.Scenario, out *Outcome) {
 			}
 		}
 		r := w.ProbeOp(world.Op{K: "create", Key: prefix + "/zz-new-leader", Val: "x", Node: 1})
+		if os.Getenv("VERIF_DEBUG") != "" && r != nil {
+			fmt.Fprintf(os.Stderr, "C15DBG late=%v held=%v startRevB=%d maxStored=%d first=%d err=%q\n", lateSync, w.HeldSyncs, startRevB, maxStored, r.Hdr, r.Err)
+		}
 		if r != nil && r.Err == "" {
 			firstNew = r.Hdr
 			if r.Hdr <= maxStored {
@@ -264,6 +302,13 @@ func c15Custom(t *testing.T, sc *world.Scenario, out *Outcome) {
 			}
 			u := w.ProbeOp(world.Op{K: "update", Key: k, Val: "after-failover", Rev: world.Rev{M: "abs", N: int64(v.Rev)}, Node: 1})
 			if u == nil {
+				continue
+			}
+			if u.Err == "" && u.OK && u.Hdr < v.Rev {
+				// whatever the node starts from: an accepted write never takes a key's history backwards
+				// (a write that reuses exactly the stored revision is the Badger finding's business, below)
+				out.violate(P, "key-history-went-backwards", "key-history-went-backwards op=update"+eng,
+					"guarded update of %s on the new leader succeeded with revision %d although the version it replaced has revision %d (new leader initialised at %d)", k, u.Hdr, v.Rev, startRevB)
 				continue
 			}
 			if u.Err != "" || !u.OK {
